@@ -230,10 +230,59 @@ func MonoidEmpty(c *core.Ctx, rule string, pkgs []*packages.Package) {
 				if m == nil {
 					continue
 				}
+				// a fold has something to fold over: a Seq / slice / Iterator / List parameter (a helper that only combines
+				// two values with m is not a fold)
+				hasColl := false
+				for _, fl := range fd.Type.Params.List {
+					for _, nm := range fl.Names {
+						if o := info.Defs[nm]; o != nil {
+							if cursorKind(o.Type()) != "" || isNamed(o.Type(), "fp", "Seq") {
+								hasColl = true
+							}
+							if _, isSl := o.Type().Underlying().(*types.Slice); isSl {
+								hasColl = true
+							}
+						}
+					}
+				}
+				if !hasColl {
+					continue
+				}
 				uses := func(method string) bool {
 					return nodeContains(fd.Body, true, func(x ast.Node) bool {
-						sel, ok := x.(*ast.SelectorExpr)
-						return ok && sel.Sel.Name == method && objOf(info, sel.X) == m
+						if sel, ok := x.(*ast.SelectorExpr); ok && sel.Sel.Name == method && objOf(info, sel.X) == m {
+							return true
+						}
+						// m handed to a module helper that applies the method to its own parameter
+						call, ok := x.(*ast.CallExpr)
+						if !ok {
+							return false
+						}
+						callee := calleeOf(info, call)
+						if callee == nil || callee.Pkg() == nil || !strings.HasPrefix(callee.Pkg().Path(), core.ModPath) {
+							return false
+						}
+						hfd := c.FuncDecl(callee.Origin())
+						hp := c.ByPath[callee.Pkg().Path()]
+						if hfd == nil || hfd.Body == nil || hp == nil {
+							return false
+						}
+						idx := 0
+						for _, hf := range hfd.Type.Params.List {
+							for _, hn := range hf.Names {
+								if idx < len(call.Args) && objOf(info, call.Args[idx]) == m {
+									ho := hp.TypesInfo.Defs[hn]
+									if ho != nil && nodeContains(hfd.Body, true, func(y ast.Node) bool {
+										sel, ok := y.(*ast.SelectorExpr)
+										return ok && sel.Sel.Name == method && objOf(hp.TypesInfo, sel.X) == ho
+									}) {
+										return true
+									}
+								}
+								idx++
+							}
+						}
+						return false
 					})
 				}
 				if !uses("Combine") {
